@@ -91,7 +91,6 @@ class Convolve(LinearOperator):
                 input_dtype=result_type(self.input_dtype, other.input_dtype),
                 mode=self.mode,
                 output_shape=self.output_shape,
-                adj_fn=lambda x: self.adj(x) + other.adj(x),
             )
 
         raise ValueError(f"Incompatible shapes: {self.shape} != {other.shape}.")
@@ -108,7 +107,6 @@ class Convolve(LinearOperator):
                 input_dtype=result_type(self.input_dtype, other.input_dtype),
                 mode=self.mode,
                 output_shape=self.output_shape,
-                adj_fn=lambda x: self.adj(x) - other.adj(x),
             )
         raise ValueError(f"Incompatible shapes: {self.shape} != {other.shape}.")
 
@@ -120,7 +118,6 @@ class Convolve(LinearOperator):
             input_dtype=result_type(self.input_dtype, type(scalar)),
             mode=self.mode,
             output_shape=self.output_shape,
-            adj_fn=lambda x: snp.conj(scalar) * self.adj(x),
         )
 
     @_wrap_mul_div_scalar
@@ -131,7 +128,6 @@ class Convolve(LinearOperator):
             input_dtype=result_type(self.input_dtype, type(scalar)),
             mode=self.mode,
             output_shape=self.output_shape,
-            adj_fn=lambda x: self.adj(x) / snp.conj(scalar),
         )
 
 
@@ -210,7 +206,6 @@ class ConvolveByX(LinearOperator):
                 input_dtype=result_type(self.input_dtype, other.input_dtype),
                 mode=self.mode,
                 output_shape=self.output_shape,
-                adj_fn=lambda x: self.adj(x) + other.adj(x),
             )
         raise ValueError(f"Incompatible shapes: {self.shape} != {other.shape}.")
 
@@ -226,7 +221,6 @@ class ConvolveByX(LinearOperator):
                 input_dtype=result_type(self.input_dtype, other.input_dtype),
                 mode=self.mode,
                 output_shape=self.output_shape,
-                adj_fn=lambda x: self.adj(x) - other.adj(x),
             )
 
         raise ValueError(f"Incompatible shapes: {self.shape} != {other.shape}.")
@@ -239,7 +233,6 @@ class ConvolveByX(LinearOperator):
             input_dtype=result_type(self.input_dtype, type(scalar)),
             mode=self.mode,
             output_shape=self.output_shape,
-            adj_fn=lambda x: snp.conj(scalar) * self.adj(x),
         )
 
     @_wrap_mul_div_scalar
@@ -250,5 +243,4 @@ class ConvolveByX(LinearOperator):
             input_dtype=result_type(self.input_dtype, type(scalar)),
             mode=self.mode,
             output_shape=self.output_shape,
-            adj_fn=lambda x: self.adj(x) / snp.conj(scalar),
         )
